@@ -30,7 +30,7 @@ def sig_matches(entry_sig, sig):
 
 
 def _all_parts(mod, prop, tier):
-    """the property's own parts plus the shared default-arguments part (mc/props/defaults.py) reporting-modes part (mc/props/reports.py) results-as-operands part (mc/props/compose.py) path-shapes part (mc/props/paths.py) two-threads part (mc/props/threads.py) and trivial-subclass part (mc/props/subclass.py),
+    """the property's own parts plus the shared default-arguments part (mc/props/defaults.py) reporting-modes part (mc/props/reports.py) results-as-operands part (mc/props/compose.py) path-shapes part (mc/props/paths.py) two-threads part (mc/props/threads.py) trivial-subclass part (mc/props/subclass.py) and keyword-call-forms part (mc/props/callforms.py),
     where their tables have rows for it"""
     parts = list(mod.parts(tier))
     from mc.props import defaults
@@ -56,6 +56,10 @@ def _all_parts(mod, prop, tier):
     sp = subclass.part(prop)
     if sp is not None:
         parts.append(sp)
+    from mc.props import callforms
+    kp = callforms.part(prop)
+    if kp is not None:
+        parts.append(kp)
     return parts
 
 
